@@ -408,6 +408,13 @@ func (w *world) main(env dst.Env) {
 	srv.apiLatency = []time.Duration{0, 0, 50 * time.Millisecond, 200 * time.Millisecond}
 	srv.apiErrDen = simrt.Pick(tape, simrt.Cfg, 0, 0, 6, 12)
 	srv.chanTimeout = tape.Coin(simrt.Cfg, 1, 4)
+	srv.passengerDen = simrt.Pick(tape, simrt.Cfg, 0, 0, 3)
+	srv.onPassenger = func(e *entry) {
+		if w.received[e.seqName] == nil {
+			w.received[e.seqName] = map[int]bool{}
+		}
+		w.received[e.seqName][e.start] = true
+	}
 	lossDen := simrt.Pick(tape, simrt.Cfg, 0, 2, 4, 8) // 1/lossDen of the pushes are lost
 	dupDen := simrt.Pick(tape, simrt.Cfg, 0, 4, 8)
 	if !srv.faultsOn {
@@ -660,6 +667,24 @@ func (w *world) main(env dst.Env) {
 		} else {
 			for _, e := range batch {
 				wrap([]*entry{e})
+			}
+		}
+		if srv.faultsOn && tape.Coin(simrt.Wl, 1, 5) {
+			// a notice that occupies no position but names the current one
+			// (pts_count = 0): ahead of a client that missed pushes it must open
+			// a gap, never move the position
+			if len(srv.chanIDs) > 0 && tape.Coin(simrt.Wl, 1, 2) {
+				c := srv.chans[srv.chanIDs[tape.Choose(simrt.Wl, len(srv.chanIDs))]]
+				if c.p > 0 {
+					simrt.FaultFired("zero-count-notice", "ch%d pts=%d", c.id, c.p)
+					push(&tg.Updates{Updates: []tg.UpdateClass{&tg.UpdateReadChannelInbox{ChannelID: c.id, MaxID: 1, Pts: c.p}}, Users: srv.users(), Chats: srv.chats(c.id), Date: srv.date},
+						fmt.Sprintf("zero-count notice ch%d pts=%d", c.id, c.p),
+						// for a channel seen for the first time, the notice's position is where tracking starts
+						&entry{seqName: fmt.Sprintf("ch%d", c.id), start: c.p, end: c.p})
+				}
+			} else if srv.p > 0 {
+				simrt.FaultFired("zero-count-notice", "pts=%d", srv.p)
+				push(&tg.UpdateShort{Update: &tg.UpdateWebPage{Webpage: &tg.WebPageEmpty{ID: int64(srv.p)}, Pts: srv.p, PtsCount: 0}, Date: srv.date}, fmt.Sprintf("zero-count notice pts=%d", srv.p))
 			}
 		}
 		if srv.faultsOn && tape.Coin(simrt.Wl, 1, 12) {
